@@ -312,8 +312,24 @@ def optAll (cx : Ctx) (o : Option Nat) (p : Rule → Bool) : Bool :=
 /-- the individual clauses, as Booleans (the `Prop`s are in LouProofs/C12.lean) -/
 def cRulesSorted (t : Table) : Bool := idxAscending 0 t.rules
 def cRulesBelowCounter (t : Table) : Bool := t.rules.all fun r => decide (r.idx < t.ruleCounter)
-def cResolve (cx : Ctx) : Bool := (allRuleRefs cx.t).all fun x => (cx.res x.2).isSome
-def cNodup (t : Table) : Bool := (allChains t).all fun c => nodupB c.2
+
+def Ctx.ok (cx : Ctx) (i : Nat) : Bool := (cx.res i).isSome
+def Ctx.okOpt (cx : Ctx) (o : Option Nat) : Bool := match o with | none => true | some i => cx.ok i
+
+def cResolve (cx : Ctx) : Bool :=
+  (cx.t.chars.all fun c => c.chain.all cx.ok && cx.okOpt c.defRule && cx.okOpt c.compRule) &&
+  (cx.t.dots.all fun d => d.chain.all cx.ok && cx.okOpt d.defRule) &&
+  (cx.t.forB.all fun b => b.2.all cx.ok) && (cx.t.backB.all fun b => b.2.all cx.ok) &&
+  (cx.t.forPass.all fun b => b.2.all cx.ok) && (cx.t.backPass.all fun b => b.2.all cx.ok) &&
+  (cx.t.emph.all fun e => cx.ok e.2.2) &&
+  cx.okOpt cx.t.undefined && cx.okOpt cx.t.letterSign && cx.okOpt cx.t.numberSign && cx.okOpt cx.t.noContractSign &&
+  cx.okOpt cx.t.noNumberSign && cx.okOpt cx.t.begComp && cx.okOpt cx.t.endComp
+
+def cNodup (t : Table) : Bool :=
+  (t.chars.all fun c => nodupB c.chain) && (t.dots.all fun d => nodupB d.chain) &&
+  (t.forB.all fun b => nodupB b.2) && (t.backB.all fun b => nodupB b.2) &&
+  (t.forPass.all fun b => nodupB b.2) && (t.backPass.all fun b => nodupB b.2)
+
 def cKeys (t : Table) : Bool :=
   nodupB (t.forB.map (·.1)) && nodupB (t.backB.map (·.1)) && nodupB (t.forPass.map (·.1)) && nodupB (t.backPass.map (·.1)) &&
   (t.forB.all fun b => decide (b.1 < HASHNUM)) && (t.backB.all fun b => decide (b.1 < HASHNUM)) &&
@@ -324,15 +340,13 @@ def cCharMember (cx : Ctx) : Bool := cx.t.chars.all fun c => (resolved cx c.chai
 def cDotsMember (cx : Ctx) : Bool := cx.t.dots.all fun d => (resolved cx d.chain).all (dotsMemberOK d)
 def cCharDef (cx : Ctx) : Bool := cx.t.chars.all fun c => optAll cx c.defRule (charDefOK c) && optAll cx c.compRule (charCompOK c)
 def cDotsDef (cx : Ctx) : Bool := cx.t.dots.all fun d => optAll cx d.defRule (dotsDefOK d)
-def cCharBase (t : Table) : Bool := t.chars.all fun c => match c.base with | none => true | some b => (t.char? b).isSome
+def cCharBase (t : Table) : Bool := t.chars.all fun c => match c.base with | none => true | some b => t.chars.any (·.value == b)
 def cFwdOrder (cx : Ctx) : Bool := cx.t.forB.all fun b => pairwiseB fwdLeB (resolved cx b.2)
 def cCharOrder (cx : Ctx) : Bool := cx.t.chars.all fun c => pairwiseB charLeB (resolved cx c.chain)
-def cPassMember (cx : Ctx) : Bool :=
-  (cx.t.forPass.all fun b => (resolved cx b.2).all (passMemberOK b.1)) &&
-  (cx.t.backPass.all fun b => (resolved cx b.2).all (passMemberOK b.1))
-def cPassOrder (cx : Ctx) : Bool :=
-  (cx.t.forPass.all fun b => pairwiseB passLeB (resolved cx b.2)) &&
-  (cx.t.backPass.all fun b => pairwiseB passLeB (resolved cx b.2))
+def cForPassMember (cx : Ctx) : Bool := cx.t.forPass.all fun b => (resolved cx b.2).all (passMemberOK b.1)
+def cBackPassMember (cx : Ctx) : Bool := cx.t.backPass.all fun b => (resolved cx b.2).all (passMemberOK b.1)
+def cForPassOrder (cx : Ctx) : Bool := cx.t.forPass.all fun b => pairwiseB passLeB (resolved cx b.2)
+def cBackPassOrder (cx : Ctx) : Bool := cx.t.backPass.all fun b => pairwiseB passLeB (resolved cx b.2)
 
 /-! diagnostics (strings only; not used by the proofs) -/
 
@@ -349,36 +363,42 @@ def diagList {α : Type} (tag : String) (l : List α) (bad : α → Option Strin
 
 def shRule (r : Rule) : String := s!"{r.idx}/{r.opcode}/{showWide r.chars}"
 
+/-- a clause of the checker: nothing when it holds, a non-empty diagnostic when it does not -/
+def clause (ok : Bool) (msg : Unit → List String) : List String :=
+  if ok then [] else (msg ()).headD "?" :: (msg ()).tail
+
 /-- **the logical-table checker**: the list of violated clauses (empty = consistent).
     `linked`: the `linked` field of the character records (value ↦ value), which DUMP does not print -/
 def checkTable (t : Table) (linked : List (Nat × Nat)) : List String :=
   let cx := mkCtx t linked
-  let cl (ok : Bool) (msg : Unit → List String) : List String := if ok then [] else msg ()
-  cl (cRulesSorted t) (fun _ => ["rules:index-order"]) ++
-  cl (cRulesBelowCounter t) (fun _ => ["rules:index-beyond-counter"]) ++
-  cl (cResolve cx) (fun _ => diagList "resolve" (allRuleRefs t) fun x => if (cx.res x.2).isSome then none else some s!"{x.1}:idx={x.2}") ++
-  cl (cNodup t) (fun _ => diagList "chain:duplicate" (allChains t) fun c => if nodupB c.2 then none else some c.1) ++
-  cl (cKeys t) (fun _ => ["bucket:keys"]) ++
-  cl (cFwdMember cx) (fun _ => diagList "bucket:forward" t.forB fun b =>
+  clause (cRulesSorted t) (fun _ => ["rules:index-order"]) ++
+  clause (cRulesBelowCounter t) (fun _ => ["rules:index-beyond-counter"]) ++
+  clause (cResolve cx) (fun _ => diagList "resolve" (allRuleRefs t) fun x => if (cx.res x.2).isSome then none else some s!"{x.1}:idx={x.2}") ++
+  clause (cNodup t) (fun _ => diagList "chain:duplicate" (allChains t) fun c => if nodupB c.2 then none else some c.1) ++
+  clause (cKeys t) (fun _ => ["bucket:keys"]) ++
+  clause (cFwdMember cx) (fun _ => diagList "bucket:forward" t.forB fun b =>
       ((resolved cx b.2).find? fun r => !fwdMemberOK cx b.1 r).map fun r => s!"{if r.opcode == CTO_Context then "context" else "rule"}:bucket={b.1}:rule={shRule r}:expected={fwdHash t linked r}") ++
-  cl (cBackMember cx) (fun _ => diagList "bucket:backward" t.backB fun b =>
+  clause (cBackMember cx) (fun _ => diagList "bucket:backward" t.backB fun b =>
       ((resolved cx b.2).find? fun r => !backMemberOK b.1 r).map fun r => s!"rule:bucket={b.1}:rule={shRule r}:expected={backHash r}") ++
-  cl (cCharMember cx) (fun _ => diagList "member:charchain" t.chars fun c =>
+  clause (cCharMember cx) (fun _ => diagList "member:charchain" t.chars fun c =>
       ((resolved cx c.chain).find? fun r => !charMemberOK c r).map fun r => s!"char={hex4 c.value}:rule={shRule r}") ++
-  cl (cDotsMember cx) (fun _ => diagList "member:dotschain" t.dots fun d =>
+  clause (cDotsMember cx) (fun _ => diagList "member:dotschain" t.dots fun d =>
       ((resolved cx d.chain).find? fun r => !dotsMemberOK d r).map fun r => s!"cell={hex4 d.value}:rule={shRule r}") ++
-  cl (cCharDef cx) (fun _ => diagList "definitionrule:char" t.chars fun c =>
+  clause (cCharDef cx) (fun _ => diagList "definitionrule:char" t.chars fun c =>
       if optAll cx c.defRule (charDefOK c) && optAll cx c.compRule (charCompOK c) then none else some s!"char={hex4 c.value}") ++
-  cl (cDotsDef cx) (fun _ => diagList "definitionrule:dots" t.dots fun d =>
+  clause (cDotsDef cx) (fun _ => diagList "definitionrule:dots" t.dots fun d =>
       if optAll cx d.defRule (dotsDefOK d) then none else some s!"cell={hex4 d.value}") ++
-  cl (cCharBase t) (fun _ => ["resolve:basechar"]) ++
-  cl (cFwdOrder cx) (fun _ => diagList "order:forward" t.forB fun b =>
+  clause (cCharBase t) (fun _ => ["resolve:basechar"]) ++
+  clause (cFwdOrder cx) (fun _ => diagList "order:forward" t.forB fun b =>
       if pairwiseB fwdLeB (resolved cx b.2) then none
       else some s!"{if (resolved cx b.2).any (·.opcode == CTO_Context) then "context" else "rule"}:bucket={b.1}:{firstBadPair fwdLeB shRule (resolved cx b.2)}") ++
-  cl (cCharOrder cx) (fun _ => diagList "order:charchain" t.chars fun c =>
+  clause (cCharOrder cx) (fun _ => diagList "order:charchain" t.chars fun c =>
       if pairwiseB charLeB (resolved cx c.chain) then none else some s!"char={hex4 c.value}:{firstBadPair charLeB shRule (resolved cx c.chain)}") ++
-  cl (cPassMember cx) (fun _ => ["member:passchain"]) ++
-  cl (cPassOrder cx) (fun _ => diagList "order:passchain" (t.forPass ++ t.backPass) fun b =>
+  clause (cForPassMember cx) (fun _ => ["member:passchain:forward"]) ++
+  clause (cBackPassMember cx) (fun _ => ["member:passchain:backward"]) ++
+  clause (cForPassOrder cx) (fun _ => diagList "order:passchain:forward" t.forPass fun b =>
+      if pairwiseB passLeB (resolved cx b.2) then none else some s!"pass={b.1}:{firstBadPair passLeB shRule (resolved cx b.2)}") ++
+  clause (cBackPassOrder cx) (fun _ => diagList "order:passchain:backward" t.backPass fun b =>
       if pairwiseB passLeB (resolved cx b.2) then none else some s!"pass={b.1}:{firstBadPair passLeB shRule (resolved cx b.2)}")
 
 end Lou.Image
